@@ -154,7 +154,7 @@ func (s *ScriptedSubscriber) deliver(ctx context.Context, out chan *message.Mess
 	for attempt := 0; ; attempt++ {
 		m := message.NewMessage(sm.UUID, []byte(sm.Payload))
 		for k, v := range sm.Metadata {
-			m.Metadata.Set(k, v)
+			m.Metadata[k] = v // (written directly: Set is code under test)
 		}
 		mctx, cancel := context.WithCancel(ctx)
 		if s.CtxDecor != nil {
